@@ -148,7 +148,7 @@ package httpd
 //@   ensures root: node.inTrie && node.np == 0
 //@   ensures ok: err == nil ==> info.registered && paramsCnt >= 0 && paramsCnt <= 72057594037927936
 //@   ensures keep: forall i *RouteInfo {i.registered} :: old(i.registered) ==> i.registered
-//@   ghost before call nextNodeOrNew#2 assert seg: len(arg1) > 0 && arg1[0] != '/' && !isTag(arg1) && !isParamKey(arg1)
+//@   ghost before call nextNodeOrNew#2 assert seg: len(arg1) > 0 && arg1[0] != '/' && !isTag(arg1) && !isParamKey(arg1) && arg1 != "*" && arg1[0] != ':'
 //@   ghost after call nextNodeOrNew#1 set ret.inTrie = true
 //@   ghost after call nextNodeOrNew#1 set ret.np = arg0.np + 1
 //@   ghost after call nextNodeOrNew#2 set ret.inTrie = true
